@@ -58,8 +58,16 @@ def fn_written_vars(unit, fn):
     w = set()
     for n in F.walk([fn.get("body")] + [i.get("init") for i in fn.get("inits", [])]):
         for p in writes_of_node(unit, n):
-            w |= T.roots(p)
+            w |= _written_roots_of_path(p)
     return w
+
+
+def _written_roots_of_path(p):
+    """variables a write to the object path p may modify. A freshly constructed temporary (`T{a, b}` handed to a function by
+    forwarding reference) is its own object: writing to it does not write the variables it was built from."""
+    if isinstance(p, tuple) and p and p[0] == "new":
+        return set()
+    return T.roots(p)
 
 
 def root_of(unit, n):
@@ -93,6 +101,9 @@ def _short(unit, n):
 
 def path_of(unit, n):
     """term of the written object (its root must be a variable or this)"""
+    n0 = T.unwrap(unit, n)
+    if n0 is not None and n0.get("k") in ("call", "construct") and n0.get("vc") is None:
+        return None      # a prvalue: a temporary of its own; writing to it does not write the variables it was computed from
     t = T.norm(unit, n)
     if T.roots(t):
         return t
